@@ -2,10 +2,6 @@
 use vstd::arithmetic::power2::*;
 
 #[verifier::external_body]
-fn __o_then_some<T>(c: bool, x: T) -> (r: Option<T>) ensures r == (if c { Some(x) } else { None::<T> }) { c.then_some(x) }
-// length of `s[a..b]` (std panics unless a <= b <= len: that is the precondition)
-fn __o_slice_range_len(len: usize, a: usize, b: usize) -> (r: usize) requires a <= b <= len ensures r == b - a { b - a }
-#[verifier::external_body]
 fn __o_slice_to_vec(s: &[Term]) -> (r: Vec<Term>) ensures r@ == s@ { s.into() }
 
 pub open spec fn und(t: Term) -> bool { t.0 > 1 }
